@@ -121,6 +121,14 @@ impl TypeAttributeBuilder {
                             return Err(panic::trait_not_used(path.get_ident().unwrap()));
                         }
 
+                        // the `Copy` handler leaves the fields and variants to the `Clone` handler when both are used, and `Copy` accepts no attribute there
+                        #[cfg(feature = "Copy")]
+                        if t == Trait::Copy {
+                            return Err(panic::attribute_incorrect_place(
+                                path.get_ident().unwrap(),
+                            ));
+                        }
+
                         if t == Trait::Clone {
                             if output.is_some() {
                                 return Err(panic::reuse_a_trait(path.get_ident().unwrap()));
